@@ -718,6 +718,7 @@ package sod
 //@ ensures [C01 get.absent] imp(has(db.schemas, T) && db.schemas[T].coherent && !has(db.schemas[T].ObjectIndex.uuids, u), err != nil && !isStorage(err))
 //@ ensures [C14 get.isolated] imp(err == nil && cacheOn(db.schemas[T]) && old(has(db.schemas, T) && cached(db, db.schemas[T], u)), fresh(out) && out != in)
 //@ ensures [C13 get.not-eoi] err != ErrEOI
+//@ ensures [C02 get.type] imp(err == nil, out != nil && dyntype(out) == dyntype(in))
 //@ ensures [C01 get.wf] wfDB(db)
 //@ ensures [C01 get.readonly] FSk == old(FSk) && FSc == old(FSc) && forallk(t, string, has(db.asyncw.m, t) == old(has(db.asyncw.m, t)) && db.asyncw.m[t] == old(db.asyncw.m[t]) && imp(has(db.asyncw.m, t), forallk(w, string, has(db.asyncw.m[t].m, w) == old(has(db.asyncw.m[t].m, w)) && db.asyncw.m[t].m[w] == old(db.asyncw.m[t].m[w]))))
 //@ ensures [C01 get.others] db.schemas == old(db.schemas) && forallk(t, string, imp(t != T, has(db.schemas, t) == old(has(db.schemas, t)) && db.schemas[t] == old(db.schemas[t]))) && imp(old(has(db.schemas, T)), has(db.schemas, T) && db.schemas[T] == old(db.schemas[T]))
@@ -1072,6 +1073,7 @@ package sod
 //@ ensures [C13 next.step] imp(inr, it.i == k + ite(it.reverse, -1, 1) && err != ErrEOI)
 //@ ensures [C01 next.stored] imp(inr && has(db.schemas, T) && db.schemas[T].coherent && has(db.schemas[T].ObjectIndex.uuids, it.uuids[k]), (err == nil && o != nil && o.uuid == it.uuids[k] && o.content == value(db, db.schemas[T], it.uuids[k])) || isStorage(err))
 //@ ensures [C01 C20 next.absent] imp(inr && has(db.schemas, T) && db.schemas[T].coherent && !has(db.schemas[T].ObjectIndex.uuids, it.uuids[k]), err != nil && !isStorage(err))
+//@ ensures [C02 next.type] imp(err == nil, o != nil && dyntype(o) == it.tdyn)
 //@ ensures [C01 next.same] it.uuids == old(it.uuids) && it.reverse == old(it.reverse) && it.db == db && it.tdyn == old(it.tdyn)
 //@ ensures [C01 next.wf] wfDB(db)
 //@ ensures [C01 next.readonly] FSk == old(FSk) && FSc == old(FSc) && asyncwSame(db)
@@ -1627,3 +1629,63 @@ package sod
 //@ ensures [C20 os.fresh] imp(result1 == nil, fresh(arr(result0)) || len(result0) == 0)
 //@ modifies nothing
 //@ allocates Elem[*indexedField], Elem[string], Elem[interface{}], indexedField.Value, indexedField.ObjectId, fieldIndex.Name, fieldIndex.Cast, fieldIndex.Constraints, fieldIndex.Index, fieldIndex.objectIds, fieldIndex.nameSplit, fieldIndex.pos, MapDom[uint64,*indexedField], MapVal[uint64,*indexedField], MapCard[uint64,*indexedField]
+
+// ---- unindexed search: full scan (C02, C12) --------------------------------------------------
+
+//@ func (*DB).searchAll
+//@ serves C02 C08 C09 C12 C19 C20
+//@ requires [wf] wfDB(db) && o != nil && has(db.schemas, stypeOf(dyntype(o)))
+//@ requires [C08 locked] H >= 1
+//@ requires [C09 lock-free] SL == 0 && HS == 0 && HM == 0
+//@ requires [constrain] imp(constrain != nil, forall(x, 0, len(constrain), constrain[x] != nil && allocated(constrain[x])) && forall(a, 0, len(constrain), forall(b, a+1, len(constrain), constrain[a].ObjectId != constrain[b].ObjectId)))
+//@ let T string := stypeOf(dyntype(o))
+//@ let sch *Schema := db.schemas[stypeOf(dyntype(o))]
+//@ let idx *objIndex := db.schemas[stypeOf(dyntype(o))].ObjectIndex
+//@ let k interface{} := norm(value)
+//@ ensures [C02 sa.search] result != nil && fresh(result) && result.db == db && wfSearch(result) && imp(result.err == nil, result.object == o && !result.reverse && result.limit == 18446744073709551615)
+//@ ensures [C19 sa.unsupported-value] imp(!supported(value), errIs(result.err, ErrUnknownKeyType))
+//@ ensures [C19 sa.unknown-operator] imp(supported(value) && !knownOp(operator), errIs(result.err, ErrUnkownSearchOperator))
+//@ ensures [C12 C19 sa.invalid-pattern] imp(supported(value) && operator == "~=" && isVStr(k) && !validPattern(vstr(k)), result.err != nil)
+//@ ensures [C12 C19 sa.mistyped] imp(supported(value) && knownOp(operator) && imp(operator == "~=" && isVStr(k), validPattern(vstr(k))) && fieldok(dyntype(o), field) && supported(proj(o.content, field)) && fieldrank(dyntype(o), field) != rank(k), errIs(result.err, ErrCasting))
+//@ ensures [C02 sa.sound] imp(result.err == nil && sch.coherent, forall(y, 0, len(result.fields), has(idx.ObjectIds, result.fields[y].ObjectId) && result.fields[y].Value == norm(proj(value(db, sch, idx.ObjectIds[result.fields[y].ObjectId]), field)) && opmatch(operator, result.fields[y].Value, k) && imp(constrain != nil, exists(x, 0, len(constrain), constrain[x].ObjectId == result.fields[y].ObjectId))))
+//@ ensures [C02 sa.complete] imp(result.err == nil && sch.coherent, forallk(u, string, imp(has(idx.uuids, u) && opmatch(operator, norm(proj(value(db, sch, u), field)), k) && (constrain == nil || exists(x, 0, len(constrain), constrain[x].ObjectId == idx.uuids[u])), exists(y, 0, len(result.fields), result.fields[y].ObjectId == idx.uuids[u]))))
+//@ ensures [C02 sa.distinct] imp(result.err == nil && sch.coherent, forall(y, 0, len(result.fields), forall(z, y+1, len(result.fields), result.fields[y].ObjectId != result.fields[z].ObjectId)))
+//@ ensures [C20 sa.fresh] imp(result.err == nil, fresh(arr(result.fields)) || len(result.fields) == 0)
+//@ ensures [C01 sa.wf] wfDB(db) && has(db.schemas, T) && db.schemas[T] == sch && sch.ObjectIndex == idx
+//@ ensures [C17 sa.readonly] FSk == old(FSk) && FSc == old(FSc) && asyncwSame(db)
+//@ ensures [C01 sa.others] db.schemas == old(db.schemas) && forallk(t, string, has(db.schemas, t) == old(has(db.schemas, t)) && db.schemas[t] == old(db.schemas[t]))
+//@ loop 1 invariant [bounds] (-1 <= rangeindex && rangeindex < len(constrain)) || (rangeindex == -1 && len(constrain) == 0)
+//@ loop 1 invariant [frame] preserved(Elem[string])
+//@ loop 1 invariant [uuids] fresh(arr(uuids)) && len(uuids) == rangeindex + 1
+//@ loop 1 invariant [resolved] forall(j, 0, rangeindex + 1, uuids[j] == ite(has(idx.ObjectIds, constrain[j].ObjectId), idx.ObjectIds[constrain[j].ObjectId], ""))
+//@ loop 1 decreases len(constrain) - rangeindex
+//@ loop 2 cut
+//@ loop 2 snap S2
+//@ loop 2 ghost p int := 0
+//@ loop 2 ghost nf int := 0
+//@ loop 2 ghost src garray[int]int
+//@ loop 2 ghost dst garray[int]int
+//@ loop 2 update p := p + 1
+//@ loop 2 update nf := len(f)
+//@ loop 2 update src y := ite(len(f) > nf && y == len(f) - 1, p, src[y])
+//@ loop 2 update dst j := ite(len(f) > nf && j == p, len(f) - 1, dst[j])
+//@ loop 2 invariant [frame] preserved(Elem[string], Elem[*indexedField], indexedField.Value, indexedField.ObjectId, iterator.uuids, iterator.reverse, iterator.db, iterator.tdyn, Search.db, Search.err, Search.fields, DB.schemas, DB.cache, DB.asyncw, DB.root, Schema.ObjectIndex, Schema.coherent, Schema.Extension, Schema.Compress, objIndex.uuids, objIndex.ObjectIds, objIndex.Fields, MapDom[string,uint64], MapVal[string,uint64], MapDom[uint64,string], MapVal[uint64,string], Object.content, Object.uuid) && preservedAt(MapDom[string,*Schema], db.schemas) && preservedAt(MapVal[string,*Schema], db.schemas) && preservedAt(MapCard[string,*Schema], db.schemas) && preservedAt(MapDom[string,*objectMap], db.cache.m) && preservedAt(MapVal[string,*objectMap], db.cache.m) && preservedAt(MapCard[string,*objectMap], db.cache.m)
+//@ loop 2 invariant [ro] FSk == old(FSk) && FSc == old(FSc) && since(S2, asyncwSame(db)) && asyncwSame(db)
+//@ loop 2 invariant [table] wfDB(db) && has(db.schemas, T) && db.schemas[T] == sch && sch.ObjectIndex == idx && s == sch && db.schemas == old(db.schemas) && forallk(t, string, has(db.schemas, t) == old(has(db.schemas, t)) && db.schemas[t] == old(db.schemas[t]))
+//@ loop 2 invariant [locals] H == old(H) && SL == 0 && HS == 0 && HM == 0 && search != nil && search.Value == k && ordv(k) && supported(value) && knownOp(operator) && imp(operator == "~=" && isVStr(k), validPattern(vstr(k))) && pathkey(fp) == field && castRank(searchType) == rank(k) && imp(fieldok(dyntype(o), field) && supported(proj(o.content, field)), fieldrank(dyntype(o), field) == rank(k)) && imp(err == nil, obj != nil && dyntype(obj) == dyntype(o))
+//@ loop 2 invariant [iter] iter != nil && wfIter(iter) && iter.db == db && iter.tdyn == dyntype(o) && !iter.reverse
+//@ loop 2 invariant [cursor] 0 <= p && p <= len(iter.uuids) && nf == len(f) && iter.i == ite(err == ErrEOI, p, p + 1) && imp(err == ErrEOI, p == len(iter.uuids)) && imp(err != ErrEOI, p < len(iter.uuids))
+//@ loop 2 invariant [uuids-constrained] imp(constrain != nil, len(iter.uuids) == len(constrain) && forall(j, 0, len(constrain), iter.uuids[j] == ite(has(idx.ObjectIds, constrain[j].ObjectId), idx.ObjectIds[constrain[j].ObjectId], "")))
+//@ loop 2 invariant [uuids-all] imp(constrain == nil, forall(j, 0, len(iter.uuids), has(idx.uuids, iter.uuids[j])) && forall(a, 0, len(iter.uuids), forall(b, a+1, len(iter.uuids), iter.uuids[a] != iter.uuids[b])) && forallk(u, string, imp(has(idx.uuids, u), exists(j, 0, len(iter.uuids), iter.uuids[j] == u))))
+//@ loop 2 invariant [f-wf] fresh(arr(f)) && forall(y, 0, len(f), f[y] != nil && allocated(f[y]))
+//@ loop 2 invariant [value-stable] forallk(u, string, value(db, sch, u) == old(value(db, sch, u)))
+//@ loop 2 invariant [current] imp(err == nil && sch.coherent, obj != nil && dyntype(obj) == dyntype(o) && has(idx.uuids, iter.uuids[p]) && obj.uuid == iter.uuids[p] && letin(u, iter.uuids[p], obj.content == old(value(db, sch, u))))
+//@ loop 2 invariant [processed] imp(sch.coherent, forall(j, 0, p, has(idx.uuids, iter.uuids[j])))
+//@ loop 2 invariant [processed-ids] imp(sch.coherent && constrain != nil, forall(j, 0, p, has(idx.ObjectIds, constrain[j].ObjectId) && idx.uuids[iter.uuids[j]] == constrain[j].ObjectId))
+//@ loop 2 invariant [processed-distinct] imp(sch.coherent, forall(a, 0, p, forall(b, a+1, p, iter.uuids[a] != iter.uuids[b] && idx.uuids[iter.uuids[a]] != idx.uuids[iter.uuids[b]])))
+//@ loop 2 invariant [f-src] forall(y, 0, len(f), 0 <= src[y] && src[y] < p)
+//@ loop 2 invariant [f-sound] imp(sch.coherent, forall(y, 0, len(f), f[y].ObjectId == idx.uuids[iter.uuids[src[y]]] && letin(u, iter.uuids[src[y]], f[y].Value == norm(proj(old(value(db, sch, u)), field))) && opmatch(operator, f[y].Value, k)))
+//@ loop 2 invariant [f-mono] forall(y, 0, len(f), forall(z, y+1, len(f), touch(f[y]) && touch(f[z]) && src[y] < src[z]))
+//@ loop 2 invariant [f-complete] imp(sch.coherent, forall(j, 0, p, imp(letin(u, iter.uuids[j], opmatch(operator, norm(proj(old(value(db, sch, u)), field)), k)), 0 <= dst[j] && dst[j] < len(f) && f[dst[j]].ObjectId == idx.uuids[iter.uuids[j]])))
+//@ modifies iterator.i, MapDom[string,*Schema]@db.schemas, MapVal[string,*Schema]@db.schemas, MapCard[string,*Schema]@db.schemas, Async.routineStarted, MapDom[string,*objectMap]@db.cache.m, MapVal[string,*objectMap]@db.cache.m, MapCard[string,*objectMap]@db.cache.m, MapDom[string,Object], MapVal[string,Object], MapCard[string,Object]
+//@ allocates Elem[string], Elem[*indexedField], Elem[interface{}], indexedField.Value, indexedField.ObjectId, iterator.db, iterator.t, iterator.i, iterator.reverse, iterator.uuids, iterator.tdyn, Search.db, Search.object, Search.fields, Search.limit, Search.reverse, Search.err, Object.content, Object.uuid, Object.stage, objectMap.m, objectMap.RWMutex
